@@ -43,6 +43,9 @@ type Req struct {
 	Plan  string // logical plan name
 	Tag   string // logical address, unique in the plan
 	Steps []Step // outcome of the n-th invocation in this process (last repeats)
+	// Steps2, if set, replaces Steps in a process that came up after a crash (Log.Life >= 2): a check that failed
+	// before the crash and passes after the restart, or the other way round.
+	Steps2 []Step `json:",omitempty"`
 }
 
 // Resp carries a unique token identifying the invocation that produced it.
@@ -96,6 +99,8 @@ type Log struct {
 	counts map[ikey]int
 	inflt  int
 	novel  map[string]struct{}
+	// Life is 2 for the log of a process that recovers what an earlier process left behind (0/1: first process).
+	Life int
 	// Hook, if set, is called under the mutex for every appended event (used by kill-at-k fault modes
 	// and plugin journals).
 	Hook func(e *Event)
@@ -246,11 +251,15 @@ func (p *Plugin) Execute(ctx wctx.Context, req any) (any, *plugins.Error) {
 	k := ikey{planID, r.Tag}
 	p.L.counts[k]++
 	n := p.L.counts[k]
-	if len(r.Steps) > 0 {
-		if n-1 < len(r.Steps) {
-			st = r.Steps[n-1]
+	steps := r.Steps
+	if p.L.Life >= 2 && len(r.Steps2) > 0 {
+		steps = r.Steps2
+	}
+	if len(steps) > 0 {
+		if n-1 < len(steps) {
+			st = steps[n-1]
 		} else {
-			st = r.Steps[len(r.Steps)-1]
+			st = steps[len(steps)-1]
 		}
 	} else {
 		st = Step{Out: OK}
